@@ -48,7 +48,17 @@ pub struct Program {
     pub transports: Vec<Transport>,
     pub events: Vec<(usize, Act)>,
     pub ndbs: usize,
+    /// permission list of the user `u1` whose token some sessions log in with ("-" = no list at all): what a
+    /// user may read or write has nothing to do with its session being counted
+    #[serde(default = "default_perms")]
+    pub user_perms: String,
 }
+
+fn default_perms() -> String {
+    "rwix *".to_string()
+}
+
+const PERMS: [&str; 5] = ["rwix *", "rwix *", "r *", "rw data*", "-"];
 
 fn gen(rng: &mut Rng, nsess: usize) -> Program {
     let ndbs = rng.range(1, 2) as usize;
@@ -92,7 +102,7 @@ fn gen(rng: &mut Rng, nsess: usize) -> Program {
             events.push((s, Act::Disconnect { clean: rng.chance(1, 2), broken_frame: rng.chance(1, 2), busy: if rng.chance(1, 3) { rng.range(2, 6) as u32 } else { 0 } }));
         }
     }
-    Program { transports, events, ndbs }
+    Program { transports, events, ndbs, user_perms: PERMS[rng.below(PERMS.len() as u64) as usize].to_string() }
 }
 
 enum Conn {
@@ -157,7 +167,9 @@ fn execute(prog: Program, concurrent: bool) -> Outcome {
         }
         admin.exec(&format!("use-db {} tok{}", DBN[i], i));
         admin.exec("create-user u1 pw1");
-        admin.exec("set-permissions u1 rwix *");
+        if prog.user_perms != "-" {
+            admin.exec(&format!("set-permissions u1 {}", prog.user_perms));
+        }
         admin.disconnect();
     }
     let tcp = w.nodes[0].tcp.clone();
